@@ -203,6 +203,12 @@ fn worker_thread(prop: String, tier: Tier, seed: u64, queue: Arc<Mutex<Vec<(u64,
                     return;
                 }
             };
+            if death.is_none() && status.and_then(|s| s.code()) == Some(101) {
+                // exit code 101 = a Rust panic that was not caught: calamine's panics are caught by the
+                // runner, so this is a bug of the harness, never a verdict about calamine
+                let _ = tx.send(Msg::HarnessError(format!("worker panicked outside a guarded call during run {} (harness bug)", idx)));
+                return;
+            }
             let (class, origin, client, msg) = match death {
                 Some((_, c, o, cl, m)) => (c, o, cl, m),
                 None => ("crash".to_string(), "process-death".to_string(), String::new(), format!("worker process died during the run: {:?}", status)),
